@@ -295,3 +295,35 @@ def ob_event_delivery(run, oid, which, why):
                         fatal = True
             o.check(fatal, "%s|%s|failure-fatal" % (name, root), "a failed send is fatal: its outcome always reaches expect / unwrap / `?`, or the Err arm can only panic", c.span)
     return o
+
+
+# ------------------------------------------------------------------------------------ cancellation safety of receive()
+def ob_receive_cancel_safe(run, oid, why):
+    """UdpNetwork::receive is polled as one branch of select! loops (message_loop, repair loops): when another branch wins, the receive future is dropped.
+    Nothing may be lost then: once datagrams were drained from the socket there is no suspension point before they are stored / returned."""
+    prog = run.program("lib")
+    o = run.ob(oid, "UdpNetwork::receive has no suspension point (.await) between draining a batch from the socket and storing / returning it", why, floor=2)
+    fam = [b for d, b in prog.bodies.items() if d.startswith("<" + A + "network::udp::UdpNetwork") and d.endswith("::receive::{closure#0}")]
+    if not fam:
+        o.missing("UdpNetwork::receive")
+        return o
+    b = fam[0]
+    pops = [c for c in b.calls() if c.name.endswith("::pop_front") and K.mentions_call(b.operand_term(c.args[0]), "recv_batch")]
+    if not pops:
+        o.missing("the drained batch's pop_front in UdpNetwork::receive")
+        return o
+    for c in pops:
+        sw = b.blocks[c.target]["term"] if c.target is not None else None
+        some = None
+        if sw and sw["k"] == "switch":
+            arms = dict((str(v), tb) for (v, tb) in sw["arms"])
+            some = arms.get("1")
+        if some is None:
+            o.fail("receive|batch|shape", "the result of the batch's pop_front is matched (Some / None)", c.span)
+            continue
+        reach = b.reachable(some)
+        ys = sorted(bb for bb in reach if b.blocks[bb]["term"]["k"] == "yield")
+        o.check(not ys, "receive|batch|no-await-while-holding", "no yield is reachable after a datagram was taken out of the drained batch (it is stashed and returned synchronously)", c.span, {"yield blocks": ys[:4]})
+        app = [x for x in b.calls() if x.name.endswith("::append") and x.bb in reach]
+        o.check(bool(app), "receive|batch|rest-stashed", "the rest of the batch is appended to the queue on that path", c.span)
+    return o
